@@ -31,7 +31,7 @@ m = {
     "engines": [{"name": "upfcheck", "path": "checker/", "serves_properties": [c["property_id"] for c in checks],
                  "kind_free_text": "repository-specific static analyser (go/packages + go/types + go/ssa + VTA call graph + compiler prove pass as bounds oracle); never executes go-upf code"}],
     "checks": checks,
-    "notes": "All claims are at level 'other': each check decides structural necessary conditions of its property on every path / for every value (see evidence coverage.explanation and undecided_remainder). known_findings.json lists genuine defects recorded rather than repaired and the eight repaired by fix: commits.",
+    "notes": "All claims are at level 'other': each check decides structural necessary conditions of its property on every path / for every value (see evidence coverage.explanation and undecided_remainder). known_findings.json lists genuine defects recorded rather than repaired (K1-K7) and the eleven repaired by fix: commits (F1-F11).",
     "not_applicable": na,
 }
 json.dump(m, open(os.path.join(V, "MANIFEST.json"), "w"), indent=1)
